@@ -27,6 +27,9 @@ pub struct TxSpec {
     pub routers: Vec<u8>,
     pub with_path: bool,
     pub max_inputs: u8,
+    /// create an NFT (Bound transaction: [Bound, Normal, Bound] + change) instead of a plain payment
+    #[serde(default)]
+    pub nft: bool,
 }
 
 #[derive(Debug, Clone, Serialize, Deserialize, PartialEq, Eq, Hash)]
@@ -234,7 +237,8 @@ pub fn plan_txs(node: &Node, bs: &BlockSpec, block_id: u64, ts: u64) -> Vec<Tran
             max_inputs: t.max_inputs as usize,
             ts: ts + n as u64,
         };
-        if let Some(mut tx) = build_honest_tx(node, &plan, block_id, &mut reserved) {
+        let built_tx = if t.nft { build_honest_nft_tx(node, &plan, block_id, &mut reserved) } else { build_honest_tx(node, &plan, block_id, &mut reserved) };
+        if let Some(mut tx) = built_tx {
             if t.with_path {
                 let mut path = vec![t.payer];
                 for r in &t.routers {
@@ -525,8 +529,9 @@ pub fn arb_txspec() -> impl Strategy<Value = TxSpec> {
         proptest::collection::vec(0u8..5, 0..3),
         any::<bool>(),
         1u8..4,
+        prop_oneof![9 => Just(false), 1 => Just(true)],
     )
-        .prop_map(|(payer, payee, amount_sel, fee, routers, with_path, max_inputs)| TxSpec {
+        .prop_map(|(payer, payee, amount_sel, fee, routers, with_path, max_inputs, nft)| TxSpec {
             payer,
             payee,
             amount_sel,
@@ -534,6 +539,7 @@ pub fn arb_txspec() -> impl Strategy<Value = TxSpec> {
             routers,
             with_path,
             max_inputs,
+            nft,
         })
 }
 
